@@ -24,9 +24,9 @@ claim("C11", "other",
       "trusted: formulas from Graillat-Muller; only the named constants are decided",
       "constant evaluation of table/constant expressions over the AST", "DESIGN.md §3/C11")
 claim("C13", "other",
-      "Thin: every literal format table keyed by numpy.float16/32/64 in utils.py and the mpmath backend's precision/exponent tables are checked against IEEE-754 binary16/32/64 and each other. Round-trip equalities are not decided.",
-      "trusted: IEEE-754 parameters; only the tables are decided",
-      "constant evaluation of literal tables over the AST", "DESIGN.md §3/C13")
+      "Partial: (a) every literal format table keyed by numpy.float16/32/64 in utils.py and the mpmath backend's precision/exponent tables are checked against IEEE-754 binary16/32/64 and each other; (b) float2fraction's decoding of the IEEE fields is proved exact for every finite bit pattern of every format by symbolic power-of-two algebra per value class (zero, subnormal, normal with negative / non-negative exponent, both signs); (c) float2mpf's man*2**exp bookkeeping; (d) expansion/float conversions keep the target dtype. mpmath's own arithmetic and fraction2float's rounding are not decided.",
+      "trusted: IEEE-754 parameters, numpy's integer view of the bit pattern, Python big-integer arithmetic; not decided: rounding in the inverse direction",
+      "constant evaluation of literal tables plus exact symbolic algebra over sums of monomials times 2**(affine exponent), per branch of the AST", "DESIGN.md §3/C13")
 claim("C15", "other",
       "Partial: sentinel (UNSPECIFIED) resolution yields the caller's value or the default and never the sentinel; no possibly-unspecified option reaches a truth test or attribute; extra-precision options are applied by backend_context and all backend evaluations run inside it; mpf2float's tables and flush-keyed threshold. Rounding of values is not decided.",
       "trusted: IEEE-754 parameters; not decided: numeric rounding behaviour of mpf2float",
